@@ -127,7 +127,7 @@ PROPS = {
     "C09": {
         "level": "exploration",
         "jobs": [
-            {"run": "^TestC09HistoryStore", "checks": {"quick": 2500, "thorough": 40000}, "shards": {"quick": 1, "thorough": 8}},
+            {"run": "^TestC09HistoryStore", "checks": {"quick": 2500, "thorough": 6000}, "shards": {"quick": 1, "thorough": 12}},
             {"run": "^TestC09(Wire|KnownFinding)", "checks": {"quick": 35, "thorough": 300}, "shards": {"quick": 4, "thorough": 16}},
         ],
         "assumptions": [
